@@ -55,6 +55,14 @@ FieldOK(fam, fb, f, in, out) ==
                          \/ in # <<>> /\ Clamp(in[1], 0, 100) = 0 /\ out = <<0>>     \* an explicit 0 may read back as 0
       [] f = "duration" -> \/ out = NormF(fam, fb, f, in)
                            \/ in # <<>> /\ TruncDiv(in[1], 1000) = 0 /\ out = <<0>>
+      \* (numeric equality: -0.0 and +0.0 are the same number; SQLite stores both as 0)
+      [] f = "bpm" -> out = in \/ (in # <<>> /\ out # <<>> /\ IsZeroD(in[1]) /\ IsZeroD(out[1]))
+      \* a cue / loop whose offset is the reserved -1 may read back as an empty slot or exactly as given
+      \* (2.x loops carry explicit "set" flags and keep it)
+      [] f \in {"hot_cues", "loops"} ->
+            LET n == NormF(fam, fb, f, in) IN
+            /\ Len(out) = Len(n)
+            /\ \A k \in 1 .. Len(n) : out[k] = n[k] \/ (k <= Len(in) /\ out[k] = in[k])
       [] OTHER -> out = NormF(fam, fb, f, in)
 
 -----------------------------------------------------------------------------
